@@ -330,6 +330,20 @@ class MayRaise:
                     out.add(("INT", p_, lo, hi))
                 if one_char:
                     out.add(("LEN==", p_, "1"))
+                # D[p] with D a module-level dict literal: every call site passes an expression that is literally one of D's keys
+                for sub in walk_no_nested(fi.node):
+                    if isinstance(sub, ast.Subscript) and isinstance(sub.value, ast.Name) and isinstance(sub.slice, ast.Name) and sub.slice.id == p_ and p_ not in stores:
+                        dsts = [x for x in self.m.modules[fi.module].globals_.get(sub.value.id, []) if isinstance(x, (ast.Assign, ast.AnnAssign))]
+                        if len(dsts) == 1 and isinstance(dsts[0].value, ast.Dict) and all(k is not None for k in dsts[0].value.keys):
+                            keys = {norm(k) for k in dsts[0].value.keys}
+                            okk = True
+                            for cfi, call in sites:
+                                a, is_default = arg_of(q, call, i, p_)
+                                if a is None or norm(a) not in keys or (cfi.module != fi.module and not is_default):
+                                    okk = False
+                                    break
+                            if okk:
+                                out.add(("IN", p_, sub.value.id))
             for i, p_ in enumerate(ps):
                 if annos.get(p_) != "int":
                     continue
